@@ -149,6 +149,13 @@ def harnesses(tier):
                           "representable in i64 (never a wrapped value)", timeout=2400, mem_gb=12, mod=MT, stubs=UNI,
                           cover_group="c03_const",
                           cbmc_unwind=int(c.split("_")[-1].rstrip("u")) + 6, loop_bounds=[OPTABLE], native_cases=const_cases(c)))
+    if tier == "quick":
+        # the quick command must finish within 900 s where it is used: 16 obligations, one per core (the tokenizer arms take
+        # 400-450 s each when they have a core to themselves, 700+ s when 25 obligations share 16 cores); the rest is thorough
+        keep = {"c03_addsub", "c03_mul", "c03_bitwise_logical_compare", "c03_shift", "c03_divrem_bounded", "c03_unary_on_values",
+                "c03_incdec_on_variable", "c03_compound_assign_linear", "c03_lazy_or", "c03_cond_select", "c03_operator_tables",
+                "c03_text_w2", "c03_text_one_w2", "c03_const_hex_16", "c03_const_hex_any_3", "c03_variable_constant_3"}
+        hs = [h for h in hs if h.name in keep]
     return hs
 
 
